@@ -16,7 +16,7 @@ def all_rules(props=None):
     table = [
         (WireRules, {"C02", "C18", "C17", "C13", "C05", "C07"}),
         (PublishRules, {"C05", "C09", "C10", "C13", "C11"}),
-        (RetxRules, {"C08", "C13", "C12"}),
+        (RetxRules, {"C08", "C13", "C12", "C02"}),
         (InboundRules, {"C06", "C02"}),
         (SubRequestRules, {"C07"}),
         (SessionRules, {"C11", "C12", "C04"}),
